@@ -542,7 +542,7 @@ def _scenarios(method, study_pb2, key_value_pb2, vizier_oss_pb2, operations_pb2,
         return study_pb2.Study(name=name, display_name='x')
 
     def trial(i):
-        return study_pb2.Trial(name=T % i, id=str(i), state=study_pb2.Trial.State.ACTIVE)
+        return study_pb2.Trial(name=T % i, id=str(i), state=study_pb2.Trial.State.STOPPING, infeasible_reason='changed by the scenario')
 
     def kv(k):
         return key_value_pb2.KeyValue(key=k, value='v')
@@ -602,7 +602,7 @@ def bracket(a):
         ds.create_study(study_pb2.Study(name=STUDY, display_name='s'))
         for i in (1, 2):
             ds.create_trial(study_pb2.Trial(name=STUDY + '/trials/%d' % i, id=str(i), state=study_pb2.Trial.State.ACTIVE))
-        ds.create_suggestion_operation(operations_pb2.Operation(name='owners/o/operations/suggestion/s/c/1', done=True))
+        ds.create_suggestion_operation(operations_pb2.Operation(name='owners/o/operations/suggestion/s/c/1', done=False))
         ds.create_early_stopping_operation(vizier_oss_pb2.EarlyStoppingOperation(name='owners/o/operations/earlystopping/s/2'))
         trace = []
         armed = {'on': True}
@@ -633,8 +633,8 @@ def bracket(a):
         evs = [t['ev'] for t in trace]
         pending = own != committed
         # the same automaton as the static check, on the run-time trace
-        dirty = caw = False
-        cbw = False
+        dirty = caw = tainted = False
+        cbw = cafw = False
         for e in evs:
             if e == 'write':
                 if caw:
@@ -643,15 +643,18 @@ def bracket(a):
             elif e == 'write_failed':
                 if caw:
                     cbw = True
+                tainted = tainted or dirty
             elif e == 'commit':
+                if dirty and tainted:
+                    cafw = True
                 if dirty:
                     caw = True
-                dirty = False
+                dirty = tainted = False
             elif e == 'rollback':
-                dirty = False
+                dirty = tainted = False
         results.append({'scenario': label, 'exit': 'raise' if exc else 'return', 'exception': exc, 'trace': trace,
                         'pending_at_exit': bool(pending), 'automaton_dirty_at_exit': dirty,
-                        'commit_between_writes': cbw, 'commits': evs.count('commit'),
+                        'commit_between_writes': cbw, 'commit_after_failed_write': cafw, 'commits': evs.count('commit'),
                         'unlocked_access': any(not t['locked'] for t in trace),
                         'partially_applied_on_error': bool(exc and committed != committed_pre),
                         'statement_kinds_other': sorted({e for e in evs if e.startswith('other')})})
